@@ -317,5 +317,56 @@ def insertKV (k : Str) (v : Value) : List (Str × Value) → List (Str × Value)
     else if k == k' then (k, v) :: rest
     else (k', v') :: insertKV k v rest
 
+/-! ### the grouping / DISTINCT key: `==` made total and consistent with `Hash` -/
+
+def canonNaNBits : Nat := 0x7ff8000000000000
+
+/-- mirrors `normalize_key` (projection_sort.rs): every NaN becomes the one canonical NaN, `-0.0` becomes
+    `+0.0`, recursively through lists and maps; everything else is unchanged. -/
+def norm : Value → Value
+  | float b =>
+    if (F64.ofBits b).isNaN then float canonNaNBits
+    else if F64.eqv (F64.ofBits b) (F64.ofBits 0) then float 0 else float b
+  | list xs => list (normList xs)
+  | map kvs => map (normMap kvs)
+  | v => v
+where
+  normList : List Value → List Value
+    | [] => []
+    | x :: xs => norm x :: normList xs
+  normMap : List (Str × Value) → List (Str × Value)
+    | [] => []
+    | (k, x) :: xs => (k, norm x) :: normMap xs
+
+/-- mirrors `key_eq ∘ normalize_key`: the equivalence used for grouping keys and DISTINCT
+    (structural equality of the normalised values; floats by bit pattern) -/
+def keyEq (a b : Value) : Bool := same (norm a) (norm b)
+
+/-- what `impl Hash for Value` (core_types.rs) feeds to the hasher, as a token sequence: floats by
+    `to_bits()`, `Null` as `0u8`, collections with their length prefix.  The hash function itself is
+    abstract: equal inputs hash alike, different inputs are assumed to hash differently. -/
+def vhash : Value → List Int
+  | null => [0]
+  | bool b => [if b then 1 else 0]
+  | int i => [i]
+  | float b => [(b : Int)]
+  | str s => s.map (fun c => (c.toNat : Int)) ++ [255]
+  | list xs => (xs.length : Int) :: vhashList xs
+  | map kvs => (kvs.length : Int) :: vhashMap kvs
+  | nodeId n => [(n : Int)]
+  | externalId n => [(n : Int)]
+  | edgeKey k => [(k.1 : Int), (k.2.1 : Int), (k.2.2 : Int)]
+  | dateTime i => [i]
+  | blob b => (b.length : Int) :: b.map (fun c => (c.toNat : Int))
+  | path ns es => (ns.length : Int) :: ns.map (fun (n : Nat) => (n : Int)) ++
+      (es.length : Int) :: es.flatMap (fun (k : EKey) => [(k.1 : Int), (k.2.1 : Int), (k.2.2 : Int)])
+where
+  vhashList : List Value → List Int
+    | [] => []
+    | x :: xs => vhash x ++ vhashList xs
+  vhashMap : List (Str × Value) → List Int
+    | [] => []
+    | (k, x) :: xs => (k.map (fun c => (c.toNat : Int)) ++ [255]) ++ vhash x ++ vhashMap xs
+
 end Value
 end Nervus
